@@ -894,7 +894,11 @@ FORM_KINDS = ['m_point', 'e_point', 'm_pair', 'e_pair', 'wire', 'm_point', 'm_fl
 REAL_STRENGTHS = [2.5, -3.0, 7, 0.25, -1.5, 4]
 
 
-def gen_form_case(rng, kind, large=False):
+KW_VARIANTS = ['given', 'st0', 'given', 'st0.0', 'st_missing', 'st0j', 'given', 'len_missing', 'stFalse',
+               'st_none', 'el_int', 'len_zero', 'given', 'el_none', 'len_none', 'st0']
+
+
+def gen_form_case(rng, kind, large=False, variant='given'):
     """One source, to be requested through every documented input form."""
     while True:     # loops / point-format dipoles need room around their centre
         g = gen_grid(rng, True, large)
@@ -915,9 +919,13 @@ def gen_form_case(rng, kind, large=False):
         if kind == 'm_point':
             hd = rng.choice([h_ for h_ in (0.25, 0.5, 0.75, 1.0) if h_ <= m] or [m])
             c['length'] = 2 * hd * hd               # loop area; never the default 1.0
+            if variant in ('len_missing', 'len_none'):
+                c['length'], hd = 1.0, 0.75         # the default applies: area 1
             c['coo'] = centre(hd)
         else:
             c['length'] = rng.choice([l_ for l_ in (0.5, 0.75, 1.5, 2.0) if l_ / 2 <= m] or [m])
+            if variant in ('len_missing', 'len_none'):
+                c['length'] = 1.0
             c['coo'] = centre(c['length'] / 2)
         c['coo'] += [gen_angle(rng, False), gen_angle(rng, True)]
     else:
@@ -941,7 +949,60 @@ def gen_form_case(rng, kind, large=False):
     else:
         c['strength'] = rng.choice(REAL_STRENGTHS)
         c['freq'] = rng.choice([rng.randint(1, 64) / 8, -rng.randint(1, 64) / 8, None])
+    # keyword variants: what is PASSED ('val', x) / ('missing',) / ('none',); c['strength'],
+    # c['length'], c['electric'] stay the EFFECTIVE values the documentation prescribes
+    c['variant'] = variant
+    kw = {'strength': ('val', c['strength']), 'length': ('val', c['length']),
+          'electric': ('val', c['electric'])}
+    if variant in ('st0', 'st0.0', 'st0j', 'stFalse'):
+        z = {'st0': 0, 'st0.0': 0.0, 'st0j': 0j, 'stFalse': False}[variant]
+        kw['strength'] = ('val', z)
+        c['strength'] = z
+        if variant == 'st0j':
+            c['freq'] = rng.randint(1, 64) / 8
+    elif variant == 'st_missing':
+        kw['strength'] = ('missing',)
+        c['strength'] = 1.0
+    elif variant == 'st_none':
+        kw['strength'] = ('none',)
+        c['expect_error'] = True
+    elif variant == 'len_missing':
+        kw['length'] = ('missing',)
+        if 'coo' not in c:
+            c['length'] = 1.0
+    elif variant == 'len_none':
+        kw['length'] = ('none',)
+        c['expect_error'] = 'coo' in c           # read (and fatal) only for the point format
+    elif variant == 'len_zero':
+        kw['length'] = ('val', 0.0)
+        if 'coo' in c:
+            c['length'] = 0.0
+            c['expect_error'] = True             # 'Provided finite dipole has no length'
+    elif variant == 'el_int':
+        kw['electric'] = ('val', int(c['electric']))
+    elif variant == 'el_none':
+        if c['kind'] == 'wire' or not c['electric']:
+            kw['electric'] = ('none',)           # only tested for truth: magnetic
+        elif c['electric']:
+            kw['electric'] = ('missing',)        # default: electric
+    c['kw'] = kw
     return c
+
+
+def form_kwargs(c):
+    out = {}
+    for k_, v_ in c['kw'].items():
+        if v_[0] == 'val':
+            out[k_] = v_[1]
+        elif v_[0] == 'none':
+            out[k_] = None
+    return out
+
+
+def fac_floor(c):
+    """Magnitude below which source-field entries are rounding noise."""
+    return 0.05 * max(abs(scale_factor(c['strength'], c['freq'])),
+                      1e-3 * abs(scale_factor(1.0, c['freq'])))
 
 
 def form_objects(c):
@@ -949,6 +1010,7 @@ def form_objects(c):
     import emg3d
     kw = {'strength': c['strength']}
     out = []
+    noinst = bool(c.get('expect_error'))
 
     def three(tag, seq, fmt, nested):
         if nested:
@@ -958,18 +1020,21 @@ def form_objects(c):
         return [(f'{tag}/ndarray', False, np.array(seq, float), fmt),
                 (f'{tag}/list', False, list(seq), fmt), (f'{tag}/tuple', False, tuple(seq), fmt)]
     if c['kind'] == 'wire':
-        out.append(('Tx(n,3)', True, emg3d.TxElectricWire(np.array(c['pts'], float), **kw), 'wire'))
+        if not noinst:
+            out.append(('Tx(n,3)', True, emg3d.TxElectricWire(np.array(c['pts'], float), **kw), 'wire'))
         out += three('(n,3)', c['pts'], 'wire', True)
         return out
     cls = emg3d.TxElectricDipole if c['electric'] else emg3d.TxMagneticDipole
     if 'coo' in c:
-        out.append(('Tx(point5)', True, cls(tuple(c['coo']), length=c['length'], **kw), 'point'))
+        if not noinst:
+            out.append(('Tx(point5)', True, cls(tuple(c['coo']), length=c['length'], **kw), 'point'))
         out += three('point5', c['coo'], 'point', False)
         return out
     p0, p1 = c['p0'], c['p1']
     flat = (p0[0], p1[0], p0[1], p1[1], p0[2], p1[2])
-    out.append(('Tx(2,3)', True, cls(np.array([p0, p1], float), **kw), 'pair'))
-    out.append(('Tx(flat6)', True, cls(flat, **kw), 'flat'))
+    if not noinst:
+        out.append(('Tx(2,3)', True, cls(np.array([p0, p1], float), **kw), 'pair'))
+        out.append(('Tx(flat6)', True, cls(flat, **kw), 'flat'))
     out += three('(2,3)', [p0, p1], 'pair', True)
     out += three('flat6', flat, 'flat', False)
     return out
@@ -986,8 +1051,7 @@ def run_forms_impl(c):
                 if inst:
                     sf = emg3d.get_source_field(gr, obj, c['freq'])
                 else:
-                    sf = emg3d.get_source_field(gr, obj, c['freq'], strength=c['strength'],
-                                                length=c['length'], electric=c['electric'])
+                    sf = emg3d.get_source_field(gr, obj, c['freq'], **form_kwargs(c))
                 res[name] = {'f': [np.array(sf.fx), np.array(sf.fy), np.array(sf.fz)], 'fmt': fmt,
                              'nwarn': sum('Normalizing' in str(x.message) for x in w)}
             except Exception as e:      # noqa
@@ -1036,13 +1100,15 @@ def nominal_of(c):
 def check_forms_property(c, res=None):
     """Independent oracle: every form gives the nominal moment and the same
     field as the Tx-instance form.  Returns a hit dict or None."""
+    if c.get('expect_error'):
+        return None     # raising inputs: behaviour compared with the model by the correspondence
     res = res or run_forms_impl(c)
     what, want = nominal_of(c)
     ref = None
-    wscale = max(1e-300, float(np.max(np.abs(want))), abs(scale_factor(c['strength'], c['freq'])) * 0.05)
+    wscale = max(float(np.max(np.abs(want))), fac_floor(c))
     base = {'kind': c['kind'], 'h': c['grid']['h'], 'origin': c['grid']['origin'],
             'strength': str(c['strength']), 'length': c['length'], 'electric': c['electric'],
-            'frequency': c['freq'],
+            'frequency': c['freq'], 'keywords_passed': {k_: repr(v_) for k_, v_ in form_kwargs(c).items()},
             'source': c.get('coo') or c.get('pts') or [c['p0'], c['p1']]}
     for name, r in res.items():
         if 'err' in r:
@@ -1065,7 +1131,7 @@ def check_forms_property(c, res=None):
             ref = (name, f)
         else:
             tol = 1e-9 * max(max(float(np.max(np.abs(a))) if a.size else 0 for a in ref[1]),
-                             abs(scale_factor(c['strength'], c['freq'])) * 0.05) \
+                             fac_floor(c)) \
                 * (1000.0 if r['fmt'] != res[ref[0]]['fmt'] else 1.0)
             err = max(float(np.max(np.abs(a - b))) if a.size else 0.0 for a, b in zip(f, ref[1]))
             if not err <= tol:
@@ -1101,16 +1167,21 @@ def coq_form_case(k, c, fmt, clamp):
         rec.r['sqrt'].append((Fr(0), 0.0))
     if not rec.r['angle']:
         rec.r['angle'].append((Fr(0), Fr(0), 0.0))
-    st = complex(c['strength'])
     stc = isinstance(c['strength'], complex)
     fq = 'None' if c['freq'] is None else f"(Some {V.q(c['freq'])})"
+
+    def kwq(v, f):
+        return 'KwMissing' if v[0] == 'missing' else 'KwNone' if v[0] == 'none' else f"(KwVal {f(v[1])})"
+    kst = kwq(c['kw']['strength'], lambda x: f"({V.q(complex(x).real)}, {V.q(complex(x).imag)})")
+    klen = kwq(c['kw']['length'], lambda x: V.q(float(x)))
+    kel = kwq(c['kw']['electric'], lambda x: V.coq_bool(bool(x)))     # python truth value
     scale = (f"(fun v : Q => out_sc (source_scale Qle_bool {V.q(math.pi)} {V.q(sc.mu_0)} {fq} "
-             f"({V.q(st.real)}, {V.q(st.imag)}) {V.coq_bool(stc)} v))")
+             f"S{k} {V.coq_bool(stc)} v))")
     L = [f"Definition G{k} := {coq_grid(g)}.",
-         f"Definition P{k} := plain_points Qle_bool {conv_oracles(rec.r)} {V.coq_bool(c['electric'])} "
-         f"{inp} {V.q(c['length'])}.",
-         f"Definition R{k} := Eval vm_compute in match P{k} with Some pts => dipole_vector Qle_bool "
-         f"{V.coq_bool(clamp)} G{k} (map psnap pts) | None => SErr 7 end."]
+         f"Definition P{k} := gsf_plain Qle_bool {conv_oracles(rec.r)} {kst} {klen} {kel} {inp}.",
+         f"Definition S{k} : Q * Q := match P{k} with Some ps => snd ps | None => (0%Q, 0%Q) end.",
+         f"Definition R{k} := Eval vm_compute in match P{k} with Some ps => dipole_vector Qle_bool "
+         f"{V.coq_bool(clamp)} G{k} (map psnap (fst ps)) | None => SErr 7 end."]
     for comp in range(3):
         sh = fshape(g['shape'], comp)
         L.append(f"Eval vm_compute in res_dump {scale} R{k} {comp} {sh[0]} {sh[1]} {sh[2]}.")
@@ -1124,7 +1195,8 @@ def case_formats(c):
 def corr_forms(ctx, n, dis, hist, samples, clamp):
     rng = ctx.rng
     cases = [gen_form_case(rng, FORM_KINDS[i % len(FORM_KINDS)], large=(i % 6 == 5 and
-                           FORM_KINDS[i % len(FORM_KINDS)] in ('wire', 'm_point')))
+                           FORM_KINDS[i % len(FORM_KINDS)] in ('wire', 'm_point')),
+                           variant=KW_VARIANTS[i % len(KW_VARIANTS)])
              for i in range(n)]
     jobs = [(i, fmt) for i, c in enumerate(cases) for fmt in case_formats(c)]
     texts = []
@@ -1148,7 +1220,8 @@ def corr_forms(ctx, n, dis, hist, samples, clamp):
         brief = {'kind': 'forms/' + c['kind'], 'h': c['grid']['h'], 'origin': c['grid']['origin'],
                  'source': c.get('coo') or c.get('pts') or [c['p0'], c['p1']],
                  'strength': str(c['strength']), 'length': c['length'], 'electric': c['electric'],
-                 'frequency': c['freq']}
+                 'frequency': c['freq'], 'variant': c['variant'],
+                 'keywords_passed': {k_: repr(v_) for k_, v_ in form_kwargs(c).items()}}
         if len(samples) < 12 and i % 5 == 0:
             samples.append(brief)
         hit = check_forms_property(c, impl)
@@ -1160,14 +1233,20 @@ def corr_forms(ctx, n, dis, hist, samples, clamp):
             nforms += 1
             hk = f"forms/{'large/' if c['grid'].get('large') else ''}{c['kind']}/{name}"
             hist[hk] = hist.get(hk, 0) + 1
+            hv = 'forms/keywords/' + c['variant']
+            hist[hv] = hist.get(hv, 0) + 1
             mv = model.get((i, r['fmt']))
-            if mv is None or 'err' in r:
-                if 'err' in r:
-                    dis.append({'what': 'get_source_field rejects a documented input form',
-                                'case': brief, 'form': name, 'impl': r['err']})
+            if mv is None:
                 continue
-            mscale = max([abs(x) for m_ in mv for x in m_]
-                         + [abs(scale_factor(c['strength'], c['freq'])) * 0.05])
+            merr = not any(mv)          # model: the call raises (all dumps empty)
+            if merr or 'err' in r:
+                if merr != ('err' in r):
+                    dis.append({'what': 'get_source_field error behaviour for these keywords differs '
+                                        'from the model (gsf_plain)',
+                                'case': brief, 'form': name, 'impl': r.get('err', 'returns a field'),
+                                'model': 'raises' if merr else 'returns a field'})
+                continue
+            mscale = max([abs(x) for m_ in mv for x in m_] + [fac_floor(c)])
             rtol = (1e-9 if exact else 1e-6) * (1000.0 if c['grid'].get('large') else 1.0)
             for comp in range(3):
                 iv = r['f'][comp].ravel()
@@ -1184,7 +1263,7 @@ def corr_forms(ctx, n, dis, hist, samples, clamp):
                                         '(plain_points -> dipole_vector -> source_scale)',
                                 'case': brief, 'form': name, 'component': 'xyz'[comp], 'detail': bad})
                     break
-        nontriv.add((c['kind'], type(c['strength']).__name__,
+        nontriv.add((c['kind'], c['variant'], type(c['strength']).__name__,
                      'none' if c['freq'] is None else 'laplace' if c['freq'] < 0 else 'freq',
                      bool(c['grid'].get('large'))))
     return nforms, len(nontriv)
@@ -1201,7 +1280,7 @@ def correspondence(ctx):
     n2, d2 = corr_point(ctx, 160 if t else 40, dis, hist, samples)
     n3, d3 = corr_gsf(ctx, 120 if t else 40, dis, hist, samples, clamp)
     n4, d4 = corr_conv(ctx, 300 if t else 75, dis, hist, samples)
-    n5, d5 = corr_forms(ctx, 72 if t else 24, dis, hist, samples, clamp)
+    n5, d5 = corr_forms(ctx, 96 if t else 32, dis, hist, samples, clamp)
     n1, d1 = n1 + n5, d1 + d5
     return {
         'evaluations': n1 + n2 + n3 + n4,
@@ -1424,11 +1503,15 @@ def search(ctx, broken):
                     break
         if i % 4 == 0:
             # input forms: Tx instance vs coordinates + keywords, nominal moment of each
-            fc = gen_form_case(rng, FORM_KINDS[(i // 4) % len(FORM_KINDS)])
+            fc = gen_form_case(rng, FORM_KINDS[(i // 4) % len(FORM_KINDS)],
+                               variant=KW_VARIANTS[(i // 4) % len(KW_VARIANTS) if (i // 4) % 3
+                                                   else rng.randrange(len(KW_VARIANTS))])
             h = check_forms_property(fc)
             counts['forms'] = counts.get('forms', 0) + 1
             if h:
                 jc = {k_: (str(v_) if isinstance(v_, complex) else v_) for k_, v_ in fc.items()}
+                jc['kw'] = {k_: [str(x) if isinstance(x, complex) else x for x in v_]
+                            for k_, v_ in fc['kw'].items()}
                 hits.append(dict(h, form_case=jc))
                 break
         if i % 3 == 0:
@@ -1468,6 +1551,8 @@ def replay(ctx, payload):
         fc = dict(fi['form_case'])
         if isinstance(fc['strength'], str):
             fc['strength'] = complex(fc['strength'])
+        fc['kw'] = {k_: tuple(complex(x) if (isinstance(x, str) and x not in ('val', 'missing', 'none'))
+                              else x for x in v_) for k_, v_ in fc['kw'].items()}
         return check_forms_property(fc) is None
     if 'points' in fi and 'h' in fi:
         g = {'h': fi['h'], 'origin': fi['origin'], 'shape': [len(h) for h in fi['h']]}
